@@ -23,13 +23,13 @@ func init() {
 }
 
 type c16anchors struct {
-	stack          *types.Var
-	push, pop      *ssa.Function
-	ctor           *ssa.Function
-	global, fnCtx  int64
-	blockCtx       int64
-	stmtFn         *types.Var
-	ok             bool
+	stack         *types.Var
+	push, pop     *ssa.Function
+	ctor          *ssa.Function
+	global, fnCtx int64
+	blockCtx      int64
+	stmtFn        *types.Var
+	ok            bool
 }
 
 func c16Anchors(c *Ctx) *c16anchors {
@@ -109,7 +109,7 @@ func r16_1(c *Ctx, a *c16anchors) {
 							if k, isK := constInt64(unwrap(el[0])); isK && k == a.global {
 								c.ok(key, r.Pos(), "constructor initialises the stack to the one-element literal [GlobalContext]")
 								continue
-						}
+							}
 						}
 						c.bad(key, r.Pos(), "constructor must initialise the stack to exactly [GlobalContext]")
 					default:
